@@ -26,6 +26,7 @@ import (
 	"strconv"
 	"strings"
 	"sync"
+	"sync/atomic"
 	"time"
 
 	"github.com/IrineSistiana/mosproxy/internal/dnsmsg"
@@ -257,8 +258,29 @@ func c01decChild(args []string) int {
 		stKind = k
 		stIdx, _ = strconv.Atoi(v)
 	}
+	// progress monitor: decoding one input takes microseconds; an input on which the loop below does not
+	// advance for 5 s is a hang. Exit with status 9 at once instead of waiting for the batch watchdog.
+	var progress atomic.Int64
+	progress.Store(-1)
+	go func() {
+		last, stuck := int64(-2), 0
+		for {
+			time.Sleep(500 * time.Millisecond)
+			p := progress.Load()
+			if p == last {
+				stuck++
+			} else {
+				last, stuck = p, 0
+			}
+			if stuck >= 10 && p >= 0 {
+				fmt.Fprintf(os.Stderr, "STUCK: no progress for 5 s at input %d\n", p)
+				os.Exit(9)
+			}
+		}
+	}()
 	var line []byte
 	for i := start; i < len(inputs); i++ {
+		progress.Store(int64(i))
 		line = strconv.AppendInt(line[:0], int64(i), 10)
 		line = append(line, '\n')
 		logf.Write(line) // before processing: a crash or a hang is attributed to this input
@@ -429,7 +451,7 @@ func c01decExec(dir, tag, batchFile string, start, end int, watchdog int) (*c01d
 		run.exit = ee.ExitCode()
 	}
 	// timeout(1): 124 = timed out; 137 = had to send KILL
-	run.timedOut = (run.exit == 124 || run.exit == 137) && time.Since(t0) >= time.Duration(watchdog)*time.Second
+	run.timedOut = ((run.exit == 124 || run.exit == 137) && time.Since(t0) >= time.Duration(watchdog)*time.Second) || run.exit == 9
 	if b, err := os.ReadFile(outPath); err == nil {
 		if len(b) > 4<<20 {
 			b = b[:4<<20]
@@ -467,6 +489,9 @@ type c01decAgg struct {
 
 // c01decBatch runs a batch to completion (restarting after a crash) and reports violations.
 func c01decBatch(c *Ctx, cnt *counterSet, agg *c01decAgg, dir string, bi int, inputs [][]byte, kinds []string, startAt, watchdog int) {
+	if c.Seen("hang") {
+		return
+	}
 	batchFile := filepath.Join(dir, fmt.Sprintf("batch-%d.bin", bi))
 	if err := c01decWriteBatch(batchFile, inputs); err != nil {
 		c.Inconclusive("cannot write batch file: " + err.Error())
@@ -583,7 +608,8 @@ func c01decBatch(c *Ctx, cnt *counterSet, agg *c01decAgg, dir string, bi int, in
 				if ex == "" {
 					ex = rerun.out[:min(len(rerun.out), 3000)]
 				}
-				c.Violation("hang", fmt.Sprintf("decoding does not return within 60 s (twice) for %s", desc(run.last)), witness(run.last, rerun, ex))
+				c.Violation("hang", fmt.Sprintf("decoding does not return (no progress for 5 s, twice) for %s", desc(run.last)), witness(run.last, rerun, ex))
+				return // one witness is enough; every further hanging input would cost seconds
 			} else if err == nil && rerun.res == nil {
 				if sig, ex := c01decClassify(rerun.out); sig != "" {
 					keep = true
